@@ -9,6 +9,7 @@ THEOREMS = ["GrpcProofs.C22." + t for t in (
     "every_block_point_listens_to_ctx", "watcher_relays_ctx", "wf_reachable", "terminal_code",
     "parked_rpc_returns_ctx_code", "parked_wquota_unblocked", "finished_stream_returns_code",
     "ctx_done_never_blocks", "unary_never_parked_on_wquota",
+    "cancel_anywhere_releases_stream", "released_stream_recv_returns_code",
     "server_deadline_ge_client_remaining", "expired_deadline_not_sent",
     "server_ctx_cancelled_on_rst", "server_ctx_cancelled_by_deadline", "server_expiry_is_deadline_exceeded",
     "server_ctx_err_sticky")]
@@ -23,10 +24,14 @@ LEVEL_TEXT = ("Machine-checked Lean proofs that, in every reachable state of the
               "environment events, any select choices), an RPC genuinely parked at pick / stream quota / header wait / receive "
               "returns CANCELLED or DEADLINE_EXCEEDED in the very step its context is done, that one parked on write quota (only a "
               "streaming RPC can be) is released with that status fixed and gets it from the RecvMsg calls that drain what was "
-              "buffered, that after the context is done no blocking point can block again, that the handler's deadline "
+              "buffered, that a stream the application made with NewStream (whatever its StreamDesc) is closed with RST_STREAM in the "
+              "very step its context is done even when the application is not inside any grpc call, that after the context is done "
+              "no blocking point can block again, that the handler's deadline "
               "arrival+decode(encode(remaining)) is never earlier than the client's (C07) and that RST_STREAM or the deadline "
               "cancels the handler's context. The model is diffed against real client+server under virtual time on every run.")
-LEVEL_NOTE = ("PARTIAL. Readings: 'blocked' = parked with no other select case ready (the T2 scenarios construct exactly that); when "
+LEVEL_NOTE = ("PARTIAL. The context watcher started by newClientStream for every stream that is not cc.Invoke's internal descriptor is "
+              "modelled as such (St.streaming = made through NewStream, any StreamDesc flags): theorem cancel_anywhere_releases_stream "
+              "covers the time the application is between two calls, and the tie drives unary-shaped hand-made streams too. Readings: 'blocked' = parked with no other select case ready (the T2 scenarios construct exactly that); when "
               "another case is ready at the same moment Go's select may take it and the RPC proceeds to the next blocking point, "
               "which again listens to the context (ctx_done_never_blocks) - it may then complete with the server's status. "
               "'Flow control' is not a place where the application goroutine blocks in grpc-go: data waits in loopy; the goroutine "
@@ -42,7 +47,10 @@ GAP = ("'bounded time' is 0 ns of VIRTUAL time in a quiescent bubble; wall-clock
        "assumes the header does not arrive before it was sent (clock skew between hosts is irrelevant: both sides use durations)")
 ASSUMPTIONS = ["0 < timeout <= MaxInt64 ns", "contexts are context.WithCancel/WithTimeout (Err() is Canceled or DeadlineExceeded)",
                "no retry policy / transparent retry during the scenario", "frames for a closed stream are dropped (closeStream first caller wins)"]
-RULE = ("for each of the 6 parking scenarios (pick, squota, wquota, window, header, recv): deadline RPCs with timeouts at every "
+RULE = ("application-driven streams made with cc.NewStream for all four StreamDesc shapes (ClientStreams x ServerStreams, including "
+        "neither) against a silent or headers-first handler: cancel / deadline fired right after NewStream, after SendMsg with no "
+        "RecvMsg pending, after several sends, while parked in RecvMsg, while parked in SendMsg on write quota, and after random "
+        "call walks; then RecvMsg / SendMsg / server events are queried. And for each of the 6 parking scenarios (pick, squota, wquota, window, header, recv): deadline RPCs with timeouts at every "
         "grpc-timeout unit boundary (exactly representable and not: n/u/m/S/M/H, 8-digit limits, +-1 ns), advanced to deadline-1, "
         "deadline, deadline+1 in one or several steps; cancel before / at / after the deadline, cancel without deadline, double "
         "cancel; server events queried before and after; malformed ops. A case is non-trivial if the real RPC was parked (`at:`) and "
@@ -88,7 +96,73 @@ def one(rng, sc, to, mode):
     return ops
 
 
+APP_TIMEOUTS = [0, 0, 0, 7, 1000, 5 * S, 100000001, 123456789123]
+
+
+def app_case(rng, c, ss, h, to, shape):
+    """an application-driven stream made with cc.NewStream(StreamDesc{ClientStreams: c, ServerStreams: ss}); the context is
+    done while the application is NOT inside a grpc call (shapes 0-2), or parked in SendMsg / RecvMsg (3-5)"""
+    ops = ["start app", "new %d %d %d %d" % (c, ss, h, to)]
+    if rng.random() < 0.5:
+        ops.append("srv")
+    fire = ["cancel"] if to == 0 or rng.random() < 0.5 else ["adv %d" % (to - 1), "adv 1"] if to > 1 and rng.random() < 0.5 else ["adv %d" % to]
+    small = rng.choice([0, 1, 10, 1000, 60000])
+    if shape == 0:        # right after NewStream, nothing sent
+        pre = []
+    elif shape == 1:      # request sent, RecvMsg not called yet (a unary-shaped call made by hand)
+        pre = ["send %d" % small]
+    elif shape == 2:      # several messages sent, window partly used
+        pre = ["send %d" % small, "send %d" % rng.choice([1, 5000, 70000]), "send 3"]
+    elif shape == 3:      # parked in RecvMsg (header wait or receive)
+        pre = (["send %d" % small] if rng.random() < 0.7 else []) + ["recv"]
+    elif shape == 4:      # parked in SendMsg on write quota
+        pre = ["send 200000", "send %d" % rng.choice([1, 100, 70000])]
+    else:                 # a random walk of calls
+        pre = []
+        for _ in range(rng.randrange(1, 6)):
+            pre.append(rng.choice(["send %d" % rng.choice([0, 1, 100, 30000, 70000, 200000]), "send 5", "recv"]))
+            if pre[-1] == "recv":
+                break
+    tail = ["srv", "recv", "send 1", "srv", "cancel", "adv %d" % rng.choice([1, 1000, S]), "srv"]
+    if rng.random() < 0.3:
+        tail = ["srv", "send 1", "recv", "srv"]
+    ops = ops + pre + fire + tail
+    if c == 0:
+        # a non-client-streaming RPC sends exactly one message (a second SendMsg is a usage error that ends the
+        # stream with INTERNAL - not part of this property): keep only the first send
+        seen, out = False, []
+        for o in ops:
+            if o.startswith("send "):
+                if seen:
+                    continue
+                seen = True
+            out.append(o)
+        ops = out
+    return ops
+
+
+def gen_app(rng, reps):
+    i = 0
+    for _ in range(reps):
+        for c in (0, 1):
+            for ss in (0, 1):
+                for shape in range(6):
+                    h = rng.randrange(2)
+                    to = rng.choice(APP_TIMEOUTS)
+                    yield Case("s_deadline", app_case(rng, c, ss, h, to, shape), "app-%d%d-shape%d-%d" % (c, ss, shape, i)); i += 1
+                # every desc shape also with the other handler kind and no deadline: pure cancellation
+                yield Case("s_deadline", app_case(rng, c, ss, 1 - rng.randrange(2), 0, rng.randrange(3)), "app-%d%d-cancel-%d" % (c, ss, i)); i += 1
+    yield Case("s_deadline", ["start app", "rpc 5", "send 1", "recv", "new 0 0 0", "new 2 0 0 0", "new 1 0 0 0", "new 1 0 0 0", "send x",
+                              "send 1", "recv", "recv", "send 1", "cancel", "srv", "recv", "send 1"], "app-malformed")
+    yield Case("s_deadline", ["start recv", "new 0 0 0 0", "send 1", "recv", "rpc 0", "cancel", "srv"], "app-ops-in-other-scenario")
+
+
 def gen(rng, tier):
+    yield from gen_app(rng, {"quick": 2, "thorough": 60, "search": 10}[tier])
+    yield from gen_rpc(rng, tier)
+
+
+def gen_rpc(rng, tier):
     reps = {"quick": 2, "thorough": 80, "search": 10}[tier]
     i = 0
     for _ in range(reps):
@@ -108,4 +182,5 @@ def gen(rng, tier):
 
 
 def nontrivial(case, impl_lines):
-    return any(l.startswith("at:") for l in impl_lines) and any("ret@" in l for l in impl_lines)
+    return (any(l.startswith("at:") or l == "ok" for l in impl_lines[1:]) and
+            any(("ret@" in l) or ("x@" in l) or ("snd@" in l and "eof" in l) for l in impl_lines))
